@@ -140,8 +140,8 @@ CLAIMED = {
         "level": P + "No RuntimeOp accepted by is_stateless carries a payload written on the processing path and every mutated StreamDefinition state field is tested; each bucket index in run_simulation hashes Value::to_partition_key of the key field with a fixed-key hasher and does not depend on the event when the key is missing. Scheduling and the output multiset are not decided.",
     },
     "C25": {
-        "technique": "sibling guard agreement on MIR: guards dominating every write of QueryState.count in the shared and the non-shared graphlet processor",
-        "level": "One clause only: the two graphlet processors between which the optimizer's sharing decision chooses update a query's trend count under the same per-query guards. The counts themselves (the property proper: equality with brute-force enumeration) are numeric and are not decided.",
+        "technique": "sibling agreement of the shared and the non-shared graphlet processor: guards dominating every write of QueryState.count on MIR, update shape (accumulate, co-update of snapshot_value) on HIR, exactly-one dispatch with equal arguments and must-pass-through of mark_processed",
+        "level": "Partial, sharing-independence clauses only: the two graphlet processors between which the optimizer's sharing decision chooses update a query's trend count under the same per-query guards, both add to the previous count and advance snapshot_value with every count update, and a closed graphlet goes to exactly one of them with the same arguments and is then marked processed. The counts themselves (the property proper: equality with brute-force enumeration) are numeric and are not decided.",
     },
     "C26": {
         "technique": "result-consumption analysis (R-LOSSY) of every non-blocking send on the cross-context data path on MIR",
